@@ -54,6 +54,9 @@ def safeBinop (op : Bitmap.BinOp) (form : Bitmap.Form) (l r : Bitmap) : String :
   | .and, .ro => safeMark "and_ar" (decide (Bitmap.Safe_andAR r l))
   | .and, .ao => safeMark "and_ao" (decide (Multi.Safe_andAO l r))   -- ops.rs:236 (the fold of `Multi.andAssignOwned`)
   | .and, .oo => safeMark "and_ao" (decide (Multi.Safe_andAO l r))   -- ops.rs:187 `a & b` = `a &= b`
+  | .or, .ar => safeMark "or_ar" (decide (Bitmap.Safe_orAR l r))      -- ops.rs:174
+  | .or, .or_ => safeMark "or_ar" (decide (Bitmap.Safe_orAR l r))     -- ops.rs:117 `a | &b` = `a |= &b`
+  | .or, .ro => safeMark "or_ar" (decide (Bitmap.Safe_orAR r l))      -- ops.rs:127 `&a | b` = `b | &a`
   | .sub, .ar => safeMark "sub_ar" (decide (Bitmap.Safe_subAR l r))
   | .sub, .ao => safeMark "sub_ar" (decide (Bitmap.Safe_subAR l r))
   | .sub, .oo => safeMark "sub_ar" (decide (Bitmap.Safe_subAR l r))
